@@ -124,6 +124,14 @@ func zeroStub(fn *ssa.Function) intrinsic {
 					}
 				}
 			}
+			// pointer results of stubbed fluent/logging APIs are never nil
+			if pt, ok := res.At(0).Type().Underlying().(*types.Pointer); ok {
+				if _, isStruct := pt.Elem().Underlying().(*types.Struct); isStruct {
+					cell := new(Value)
+					*cell = m.zero(pt.Elem())
+					return cell
+				}
+			}
 			return m.zero(res.At(0).Type())
 		}
 		return m.zero(res)
@@ -243,6 +251,13 @@ func buildIntrinsics() map[string]intrinsic {
 	t[apiPkg+".AdvanceClock"] = func(m *Machine, fr *frame, a []Value) Value {
 		m.advanceClock(m.goString(a[0], "AdvanceClock"), m.concInt(a[1], "AdvanceClock max"))
 		return nil
+	}
+	t[apiPkg+".Mark"] = func(m *Machine, fr *frame, a []Value) Value {
+		m.marks[m.goString(a[0], "Mark")]++
+		return nil
+	}
+	t[apiPkg+".Marked"] = func(m *Machine, fr *frame, a []Value) Value {
+		return m.mkInt(int64(m.marks[m.goString(a[0], "Marked")]), 64)
 	}
 	t[apiPkg+".Symbolic"] = func(m *Machine, fr *frame, a []Value) Value { return m.ctx.True }
 	t[apiPkg+".Now"] = func(m *Machine, fr *frame, a []Value) Value { return m.timeNow() }
